@@ -560,6 +560,32 @@ def assemble(unit_cfg, src="/repo/src"):
     out.add("} // verus!\nfn main() {}\n")
     canary_text = out.text()
     main_text = "".join(main_text_parts) + "} // verus!\nfn main() {}\n"
+    # mechanical scan of the verified text for everything that is assumed rather than proved
+    scan = []
+    cur_fn = None
+    pending = []
+    for ln, line in enumerate(main_text.split("\n"), 1):
+        m = re.search(r"\b(?:proof\s+)?fn\s+([A-Za-z_][A-Za-z0-9_]*)", line)
+        if m:
+            cur_fn = m.group(1)
+            for pnd in pending:          # an attribute line belongs to the next fn
+                pnd["fn"] = cur_fn
+            pending = []
+        stripped = line.strip()
+        if stripped.startswith("//"):
+            continue
+        for kw in ("admit()", "assume(", "external_body", "assume_specification", "#[verifier::external"):
+            if kw in line:
+                what = stripped[:160]
+                if kw == "assume_specification":
+                    mm = re.search(r"assume_specification[^\[]*\[\s*(.+?)\s*\]\s*\(", line)
+                    what = "assume_specification " + (mm.group(1) if mm else stripped[:120])
+                item = {"kind": kw.strip("(#[]"), "fn": cur_fn, "line": ln, "text": what}
+                if kw in ("external_body", "#[verifier::external") and not m:
+                    pending.append(item)
+                scan.append(item)
+                break
+    side["assumption_scan"] = scan
     side["sha256"] = hashlib.sha256(canary_text.encode()).hexdigest()
     side["lines"] = main_lines
     return main_text, canary_text, side
